@@ -48,8 +48,8 @@ type PortBlock struct {
 	PublicIP      uint32
 	PortStart     uint16
 	PortEnd       uint16
-	NextPort      uint16
-	PortsInUse    uint16
+	NextPort      uint32 // __u32 in struct port_block (atomic ops)
+	PortsInUse    uint32 // __u32 in struct port_block (atomic ops)
 	AllocatedAt   uint64
 	SubscriberID  uint32
 	BlockSizeLog2 uint8
@@ -75,6 +75,7 @@ type NATSession struct {
 	DestIP     uint32
 	DestPort   uint16
 	_          uint16
+	_          [4]byte // alignment padding before the first __u64 of struct nat_session
 	LastSeen   uint64
 	Created    uint64
 	PacketsOut uint64
@@ -85,6 +86,7 @@ type NATSession struct {
 	Protocol   uint8
 	Flags      uint8
 	IsHairpin  uint8
+	_          [4]byte // tail padding of struct nat_session (8-byte aligned)
 }
 
 // EIMKey is the key for Endpoint-Independent Mapping lookups
@@ -470,7 +472,7 @@ func (m *Manager) AllocateNAT(privateIP net.IP) (*Allocation, error) {
 				PublicIP:      ipToKey(selectedPool.PublicIP),
 				PortStart:     portStart,
 				PortEnd:       portEnd,
-				NextPort:      portStart,
+				NextPort:      uint32(portStart),
 				PortsInUse:    0,
 				AllocatedAt:   uint64(time.Now().UnixNano()),
 				SubscriberID:  subscriberID,
